@@ -22,6 +22,12 @@ def tree_params(rng, algo):
         P["delta"] = float(10 ** rng.uniform(-6, -0.05)) if rng.random() < 0.85 else float(rng.uniform(0.55, 0.99))
         if algo == "VHCT":
             P["bound"] = float(10 ** rng.uniform(-2, 1.5))
+        if rng.random() < 0.08:
+            # the corner where the published clamp min(1, c1*delta/t+) really binds: c1 = (rho/(3 nu))^(1/8) > 1 and
+            # delta close to 1
+            P["nu"] = float(10 ** rng.uniform(-2, -1))
+            P["rho"] = float(rng.uniform(0.5, 0.95))
+            P["delta"] = float(rng.uniform(0.85, 0.995))
         # (c1*delta > 1/2 is allowed: there only the rounds with t+ = 1 (t+ <= 2 if c1*delta > 1) are not judged)
         return P
     raise RuntimeError("unreachable")
